@@ -136,7 +136,17 @@ class Bus:
         self.cfg = cfg
         self.d = Daemon(exe, auth="<auth>EXTERNAL</auth>", limits=limits_xml(cfg))
         self.path = self.d.sock
-        self.M = self.d.connect()
+        # the socket file appears at bind(), connections are possible after listen(): retry briefly
+        t_end = time.time() + WAIT
+        while True:
+            try:
+                self.M = self.d.connect()
+                break
+            except (ConnectionRefusedError, FileNotFoundError):
+                if time.time() > t_end or not self.d.alive():
+                    rc, err = self.d.stop()
+                    raise IOError("cannot connect to the daemon (exit status %s): %s" % (rc, err[-500:]))
+                time.sleep(0.01)
         self.M.hello()
         r = self.M.call("BecomeMonitor", "asu", ([], 0), iface="org.freedesktop.DBus.Monitoring")
         if r is None or r.mtype != METHOD_RETURN:
